@@ -674,6 +674,19 @@ func mergeVal(c *Term, a, b Value) Value {
 	case *ArrayV:
 		y := b.(*ArrayV)
 		n := &ArrayV{E: make([]Value, len(x.E))}
+		if len(x.E) >= 4 && len(x.E) <= 64 {
+			// byte arrays (addresses, hashes): merge as ONE wide ite and re-split, so that later block comparisons see a
+			// single chain of wide ites instead of len(x) chains of byte ites
+			if xs, ok := byteTerms(x.E); ok {
+				if ys, ok := byteTerms(y.E); ok {
+					t := Ite(c, termOfBytes(xs), termOfBytes(ys))
+					for i, bt := range bytesOfTerm(t) {
+						n.E[i] = bt
+					}
+					return n
+				}
+			}
+		}
 		for i := range x.E {
 			n.E[i] = mergeVal(c, x.E[i], y.E[i])
 		}
@@ -856,15 +869,67 @@ func (e *Engine) stringIndex(st *State, s StringV, idx *Term) *Term {
 	return res
 }
 
-func (e *Engine) concreteInt(st *State, v ssa.Value, f *Frame, def int) (int, bool) {
+// concreteInt returns the value of an integer operand; a symbolic operand is concretised by forking over its feasible
+// values in [0, limit] (the instruction is re-executed in the clones), values outside that range become one extra state
+// in which the operand is pinned to a feasible out-of-range witness (so that the Go run-time check panics there).
+func (e *Engine) concreteInt(st *State, v ssa.Value, f *Frame, def int, limit ...int) (int, bool) {
 	if v == nil {
 		return def, true
 	}
 	t := e.get(st, f, v).(*Term)
-	if !t.IsConst() {
+	if t.IsConst() {
+		return int(t.Int64()), true
+	}
+	if len(limit) == 0 {
 		return 0, false
 	}
-	return int(t.Int64()), true
+	lim := limit[0]
+	t64 := t
+	if t64.sort.W < 64 {
+		t64 = SignExt(t64, 64)
+	}
+	// out-of-range witness first
+	oob := Or(BVSlt(t64, ConstU(0, 64)), BVSgt(t64, ConstU(uint64(lim), 64)))
+	if e.feasible(st, oob) {
+		if r := e.solver.CheckPC(st.pc, oob); r == Sat {
+			m := e.solver.Values(varsOf(t))
+			e.solver.Pop()
+			val := evalTerm(t64, m)
+			if val != nil {
+				o := st.clone()
+				o.assume(Eq(t64, ConstBV(val, 64)))
+				o.top().pc--
+				o.top().regs[v] = ConstBV(val, t.sort.W)
+				e.pushWork(o)
+				e.stats.forks++
+			}
+		}
+		st.assume(Not(oob))
+	}
+	first := -1
+	for n := 0; n <= lim; n++ {
+		c := Eq(t64, ConstU(uint64(n), 64))
+		if !e.feasible(st, c) {
+			continue
+		}
+		if first < 0 {
+			first = n
+			continue
+		}
+		o := st.clone()
+		o.assume(c)
+		o.top().pc--
+		o.top().regs[v] = ConstU(uint64(n), t.sort.W)
+		e.pushWork(o)
+		e.stats.forks++
+	}
+	if first < 0 {
+		st.status = Infeasible
+		return 0, false
+	}
+	st.assume(Eq(t64, ConstU(uint64(first), 64)))
+	f.regs[v] = ConstU(uint64(first), t.sort.W)
+	return first, true
 }
 
 func (e *Engine) sliceOp(st *State, f *Frame, x *ssa.Slice) {
@@ -883,11 +948,19 @@ func (e *Engine) sliceOp(st *State, f *Frame, x *ssa.Slice) {
 		}
 		f.regs[x] = StringV{b.B[lo:hi]}
 	case SliceV:
-		lo, ok1 := e.concreteInt(st, x.Low, f, 0)
-		hi, ok2 := e.concreteInt(st, x.High, f, b.Len)
-		mx, ok3 := e.concreteInt(st, x.Max, f, b.Cap)
+		lo, ok1 := e.concreteInt(st, x.Low, f, 0, b.Cap)
+		if !ok1 && st.status != Running {
+			return
+		}
+		hi, ok2 := e.concreteInt(st, x.High, f, b.Len, b.Cap)
+		if !ok2 && st.status != Running {
+			return
+		}
+		mx, ok3 := e.concreteInt(st, x.Max, f, b.Cap, b.Cap)
 		if !ok1 || !ok2 || !ok3 {
-			e.unsupported_(st, "symbolic slice bounds")
+			if st.status == Running {
+				e.unsupported_(st, "symbolic slice bounds")
+			}
 			return
 		}
 		if lo < 0 || hi < lo || mx < hi || mx > b.Cap {
